@@ -37,8 +37,10 @@ void HARNESS(void)
 {
   INPUT_ARR(E, in_elems, K * (LMAX + 1)); INPUT_ARR(uint64_t, in_len, K); INPUT(uint64_t, in_size); INPUT(uint32_t, in_mwma);
   INPUT(uint32_t, in_gi); INPUT(uint32_t, in_gp); INPUT(uint32_t, in_gj); INPUT(uint32_t, in_gj2);
-  E* base = malloc(K * (LMAX + 1) * sizeof(E)); E* out = malloc((TOTALMAX + 1) * sizeof(E)); Seq* seqs = malloc(K * sizeof(Seq));
-  __CPROVER_assume(base != 0 && out != 0 && seqs != 0);
+  /* arrays, not malloc'ed blocks: only then does `seqs_end - seqs_begin` (the k that selects the code path) fold to the
+   * constant K during symbolic execution; with heap blocks every job contained every variant for every k */
+  E base_arr[K * (LMAX + 1) + 1]; E out_arr[TOTALMAX + 1]; Seq seqs_arr[K + 1];
+  E* base = base_arr; E* out = out_arr; Seq* seqs = seqs_arr;
   uint64_t total = 0;
 #ifdef FIX_LENS      /* one job per tuple of lengths (digits of FIX_LENS in base 10, sequence 0 first) */
   { unsigned code_ = FIX_LENS; for (unsigned i = 0; i < K; i++) { in_len[K - 1 - i] = code_ % 10; code_ /= 10; } }
@@ -71,7 +73,7 @@ void HARNESS(void)
   in_size = FIX_SIZE;
 #endif
   __CPROVER_assume(in_mwma <= 4);          /* MWMA_LOSER_TREE, _COMBINED, _SENTINEL, _BUBBLE and the default alias */
-  ir_live_allocs = 3; ir_throw_allowed = 0;
+  ir_live_allocs = 0; ir_throw_allowed = 0;
   uint64_t lens[K]; for (unsigned i = 0; i < K; i++) lens[i] = in_len[i];
 
   c_mm(seqs, out, in_size, in_mwma, base, lens, in_gi, in_gp, in_gj);
